@@ -264,7 +264,7 @@ def check_mask(ctx):
     if mask_store is None:
         ctx.violate("MASK", site + ":constraints", fi, "the coordinates fixed by the grid's symmetry (grid.coordinate_constraints) are not removed from the free parameters")
         return
-    ok_grid = U(mask_store.targets[0].slice) == "phase_field.grid.coordinate_constraints"
+    ok_grid = U(fv.expand(mask_store.targets[0].slice, mask_store)) == "phase_field.grid.coordinate_constraints"
     # initial value all True of the right length
     d = fv.defs_reaching("free", fv.node_of(mask_store))
     init = None
